@@ -156,6 +156,10 @@ func (ex *Exec) quiesce() int {
 }
 
 func (ex *Exec) spawn(fr *frame, fn Value, args []Value) {
+	if ex.tr != nil {
+		ex.trSpawn(fn, args)
+		return
+	}
 	g := &G{id: len(ex.gs), wake: make(chan struct{}, 1), exited: make(chan struct{})}
 	ex.gs = append(ex.gs, g)
 	go func() {
@@ -235,6 +239,10 @@ func (ex *Exec) killAll() {
 // ---- channels ----
 
 func (ex *Exec) chanSend(fr *frame, c *Chan, v Value) {
+	if ex.tr != nil && ex.trOn() {
+		ex.trSend(c)
+		return
+	}
 	ex.yieldPoint()
 	if c == nil {
 		ex.block(func() bool { return false }, "send on nil channel")
@@ -250,6 +258,9 @@ func (ex *Exec) chanSend(fr *frame, c *Chan, v Value) {
 }
 
 func (ex *Exec) chanRecv(fr *frame, c *Chan, commaOk bool, elem types.Type) Value {
+	if ex.tr != nil && ex.trOn() {
+		return ex.trRecv(c, commaOk, elem)
+	}
 	ex.yieldPoint()
 	if c == nil {
 		ex.block(func() bool { return false }, "receive on nil channel")
@@ -271,6 +282,10 @@ func (ex *Exec) chanRecv(fr *frame, c *Chan, commaOk bool, elem types.Type) Valu
 }
 
 func (ex *Exec) chanClose(c *Chan) {
+	if ex.tr != nil && ex.trOn() {
+		ex.tr.emit(ex, TraceEvent{Kind: "close", Obj: ex.trChanRef(c)})
+		return
+	}
 	ex.yieldPoint()
 	if c == nil {
 		panic(&goPanic{V: Iface{T: types.Typ[types.String], V: "close of nil channel"}, Runtime: true, Msg: "close of nil channel"})
@@ -296,6 +311,9 @@ func (ex *Exec) mutexLock(p *Value) {
 	if p == nil {
 		ex.rtPanic("invalid memory address or nil pointer dereference")
 	}
+	if ex.tr != nil && ex.trOn() && ex.trLock(p) {
+		return
+	}
 	ex.yieldPoint()
 	st := ex.mutexOf(p)
 	ex.block(func() bool { return !st.locked }, "mutex")
@@ -307,6 +325,9 @@ func (ex *Exec) mutexLock(p *Value) {
 func (ex *Exec) mutexUnlock(p *Value) {
 	if p == nil {
 		ex.rtPanic("invalid memory address or nil pointer dereference")
+	}
+	if ex.tr != nil && ex.trOn() && ex.trUnlock(p) {
+		return
 	}
 	st := ex.mutexOf(p)
 	if !st.locked {
